@@ -480,6 +480,9 @@ package memfs
 //@   ensures err == nil ==> len(as(parent.0.index[sp.1], "*memfs.File").data) == old(len(data)) && forall(k, 0 <= k && k < old(len(data)) ==> as(parent.0.index[sp.1], "*memfs.File").data[k] == old(data[k]))
 //@   at_call NewFile requires (fresh(arr($3)) || len($3) == 0) && len($3) == old(len(data)) && forall(k, 0 <= k && k < old(len(data)) ==> $3[k] == old(data[k]))
 //@   at_call setData requires (fresh(arr($1)) || len($1) == 0) && len($1) == old(len(data)) && forall(k, 0 <= k && k < old(len(data)) ==> $1[k] == old(data[k]))
+// C09: a new file is born complete - the node that becomes visible to other goroutines already
+// holds the whole value (readers never see an empty file nobody wrote)
+//@   conc_at_call [C09] NewFile requires len($3) == old(len(data))
 //@ func (*Filespace).Remove [C01 C09]
 //@   requires FsInv(fs)
 //@   modifies memfs.Dir.nodes, M:string:fs.FileInfo, E:fs.FileInfo, $maplen
